@@ -9,6 +9,7 @@ f23_0:
   call f22_0
   call f13_0
   lea d_f23_0(%rip),%rax
+  mov wvsv0@GOTPCREL(%rip),%rax
   ret
 .section .data.d_f23_0,"aw",@progbits
 .globl d_f23_0
@@ -21,4 +22,5 @@ f23_1:
   ret
   call f22_0
   call f19_1
+  mov wvsv2(%rip),%rax
   ret
